@@ -124,6 +124,20 @@ Example C18_ex_verify :
   /\ verify_signature unit (fun k => [k]) (fun m => m) (fun _ _ s => match s with [1] => true | _ => false end) tt [65;66] [2] = Ok false.
 Proof. vm_compute. split; reflexivity. Qed.
 
+(* ---- tie to the source: both copies of twosComplement are TRANSLATED from the Go code (Gen/Funcs.v: a
+   descending loop over a byte slice read and written in place); the array they leave is the model's twos *)
+From GoMC Require Base.GoInt Gen.Funcs Proofs.C18_tie.
+Theorem C18_twos_bot_translated : forall p : list N, Forall (fun b => b < 256) p -> (Z.of_nat (length p) < 2 ^ 62)%Z ->
+  forall j, (j < length p)%nat ->
+    GoInt.read_buf (Funcs.bot_twosComplement (Z.of_nat (length p)) (C18_tie.basef p)) (C18_tie.basef p) (Z.of_nat j)
+    = Z.of_N (nth j (twos p) 0).
+Proof. exact C18_tie.tie_twos_bot. Qed.
+Theorem C18_twos_auth_translated : forall p : list N, Forall (fun b => b < 256) p -> (Z.of_nat (length p) < 2 ^ 62)%Z ->
+  forall j, (j < length p)%nat ->
+    GoInt.read_buf (Funcs.auth_twosComplement (Z.of_nat (length p)) (C18_tie.basef p)) (C18_tie.basef p) (Z.of_nat j)
+    = Z.of_N (nth j (twos p) 0).
+Proof. exact C18_tie.tie_twos_auth. Qed.
+
 Print Assumptions C18_uuid.
 Print Assumptions C18_uuid_fields.
 Print Assumptions C18_digest.
@@ -141,3 +155,5 @@ Print Assumptions C18_verify.
 Print Assumptions C18_verify_refuses.
 Print Assumptions C18_pk_verify.
 Print Assumptions C18_pk_verify_total.
+Print Assumptions C18_twos_bot_translated.
+Print Assumptions C18_twos_auth_translated.
